@@ -8,12 +8,6 @@ namespace C18
 variable {α : Type}
 
 /-! ### queries -/
-def isQuery : Op α → Bool
-  | .tell => true
-  | .getvalue => true
-  | .len => true
-  | _ => false
-
 theorem Spec.query_state [Inhabited α] (sem : LineSem α) (f : File α) (q : Op α) (hq : isQuery q = true) :
     (Spec.step sem f q).2 = f := by
   cases q <;> simp [isQuery] at hq <;> rfl
@@ -50,7 +44,7 @@ theorem Spec.query_invisible [Inhabited α] (sem : LineSem α) (f : File α) (a 
   exact ⟨this, rfl⟩
 
 theorem validS_append (f : File Char) (a b : List (Op Char)) :
-    validS f (a ++ b) = (validS f a && validS (Spec.run textSem f a).2 b) := by
+    validS f (a ++ b) = (validS f a && validS (Spec.run codecSem f a).2 b) := by
   induction a generalizing f with
   | nil => simp [validS, Spec.run]
   | cons op a ih => simp [validS, Spec.run, ih, Bool.and_assoc]
@@ -103,10 +97,6 @@ theorem Coh_stream_pos (s : SStr) (text : List Char) (h : Coh s text) :
 
 /-! ### MultiFileReader: reads deliver the content once, in order -/
 
-def MOp.isRead : MOp → Bool
-  | .seek0 => false
-  | _ => true
-
 theorem MFR.specRun_reads (f : File α) (ops : List MOp) (hr : ∀ op ∈ ops, op.isRead = true) :
     ((MFR.specRun f ops).1.filterMap id).flatten ++ (MFR.specRun f ops).2.rest = f.rest := by
   induction ops generalizing f with
@@ -127,5 +117,24 @@ theorem MFR.specRun_reads (f : File α) (ops : List MOp) (hr : ∀ op ∈ ops, o
       | succ k =>
         simp only [MFR.specStep, List.filterMap_cons, id, List.flatten_cons, List.append_assoc] at hrest ⊢
         rw [hrest, File.readN_fst, File.readN_rest]; simp
+
+
+theorem MFR.specRun_append (f : File α) (a b : List MOp) :
+    MFR.specRun f (a ++ b) =
+      ((MFR.specRun f a).1 ++ (MFR.specRun (MFR.specRun f a).2 b).1, (MFR.specRun (MFR.specRun f a).2 b).2) := by
+  induction a generalizing f with
+  | nil => simp [MFR.specRun]
+  | cons op a ih => simp [MFR.specRun, ih]
+
+theorem MFR.specStep_data (f : File α) (op : MOp) : (MFR.specStep f op).2.data = f.data := by
+  cases op with
+  | read n => cases n <;> rfl
+  | readAll => rfl
+  | seek0 => rfl
+
+theorem MFR.specRun_data (f : File α) (ops : List MOp) : (MFR.specRun f ops).2.data = f.data := by
+  induction ops generalizing f with
+  | nil => rfl
+  | cons op ops ih => simp only [MFR.specRun]; rw [ih, MFR.specStep_data]
 
 end C18
